@@ -747,10 +747,25 @@ class Saver:
             rechunk=rechunk and self.allow_rechunk, run_id=self.md["run_id"]
         )
 
+        last_received = None
         try:
             while not exhausted:
                 try:
-                    chunks = rechunker.receive(next(source))
+                    new_chunk = next(source)
+                    # Rechunking would silently paper over a gap between the
+                    # chunks we receive: check continuity before that.
+                    if (
+                        last_received is not None
+                        and not new_chunk.is_superrun
+                        and new_chunk.run_id == last_received.run_id
+                        and new_chunk.start != last_received.end
+                    ):
+                        raise ValueError(
+                            f"Data is not continuous. Chunk {new_chunk} to be saved should "
+                            f"have started at {last_received.end}"
+                        )
+                    last_received = new_chunk
+                    chunks = rechunker.receive(new_chunk)
                 except StopIteration:
                     exhausted = True
                     chunks = rechunker.flush()
